@@ -1,13 +1,13 @@
 SPECIFICATION Spec
 CONSTANTS
-  Names = {"x", "y", "z", "w"}
+  Names = {"x", "y", "z"}
   Binders <- B3
   Parent <- Parent3
   Uses <- U3
   ScopeOf <- Scope3
   ValueOf <- Value3
-  Classes = {"A", "B", "C"}
-  Private = {"C"}
+  Classes = {"A", "B"}
+  Private = {"B"}
   Modules = {"M", "M2"}
   Members = 2
   Sites = {1, 2}
